@@ -1,4 +1,5 @@
 import Libp2pModel.Model.C03
+import Std.Data.String.ToNat
 /-!
 # C03 — property theorems (partial: atomicity of `fetch_add` is trusted)
 -/
@@ -172,6 +173,15 @@ theorem wrapping_agrees_until_wrap (w c0 : Nat) (sched : List Nat)
   simp only [List.getElem_map, List.getElem_range', Nat.one_mul]
   exact Nat.mod_eq_of_lt (by omega)
 
+/-- the Spec accepts the wrapping model: the printed ids of any run of at most `2^w` allocations
+pass `specWrap` (decimal printing is injective) -/
+theorem spec_accepts_wrap (w c0 : Nat) (hc : c0 < 2 ^ w) (sched : List Nat)
+    (hn : sched.length ≤ 2 ^ w) :
+    specWrap ((ids (runW w { ctr := c0 } sched)).map toString) = true := by
+  have hnd := List.nodup_iff_pairwise_ne.1 (unique_wrapping w c0 hc sched hn)
+  simp only [specWrap, decide_eq_true_eq, List.pairwise_map]
+  exact hnd.imp fun {a b} hab e => hab (Nat.repr_injective e)
+
 example : ids (runW 2 { ctr := 1 } [5, 5, 9, 0, 9]) = [1, 2, 3, 0, 1] := by decide
 example : ids (runW 3 { ctr := 7 } [0, 1, 2]) = [7, 0, 1] := by decide
 
@@ -185,3 +195,4 @@ end C03
 #print axioms C03.unique_wrapping
 #print axioms C03.wrapping_reuse
 #print axioms C03.wrapping_agrees_until_wrap
+#print axioms C03.spec_accepts_wrap
